@@ -13,7 +13,7 @@ def free_port():
 
 class Server:
     def __init__(self, root, threads=4, lane="rel", env=None, args=None, trace=False, strace=False, config_file=None,
-                 port=None, ip="127.0.0.1", use_default_args=True, mixed_app=False):
+                 port=None, ip="127.0.0.1", use_default_args=True, mixed_app=False, virtual_time=False):
         """mixed_app: instead of the shipped binary, the harness runs the same accept loop (Server::run) and pool with an
         application that fails on demand (target contains __panic / __panic_long / __panic_any / __err / __slow)"""
         self.root, self.threads, self.lane = root, threads, lane
@@ -29,6 +29,15 @@ class Server:
         # symbolised backtraces of concurrent panics are serialised by std and take 0.1 - 1 s each: they would turn
         # "a worker is printing" into "a worker is stuck"; the 'panicked at' line itself is always printed
         e["RUST_BACKTRACE"] = "0"
+        # virtual time: the process's clocks can be moved forward with advance_clock() (LD_PRELOAD shim)
+        self.shift_path = None
+        if virtual_time:
+            so = build.timeshift()
+            if so:
+                self.shift_path = os.path.join(self.dir, "timeshift")
+                open(self.shift_path, "w").write("0")
+                e["LD_PRELOAD"] = so
+                e["VF_TIMESHIFT_FILE"] = self.shift_path
         if trace:
             e["RWS_VERIF_TRACE"] = "1"
         if env:
@@ -62,6 +71,17 @@ class Server:
                 return True
             time.sleep(0.01)
         return False
+
+    def advance_clock(self, seconds):
+        """move every clock of the server process forward by `seconds` (cumulative); False when virtual time is unavailable"""
+        if not self.shift_path:
+            return False
+        cur = int(open(self.shift_path).read().strip() or 0)
+        tmp = self.shift_path + ".tmp"
+        open(tmp, "w").write(str(cur + int(seconds)))
+        os.replace(tmp, self.shift_path)
+        time.sleep(0.02)   # the shim re-reads the file every 5 ms of real time
+        return True
 
     # ---- observations
     def alive(self):
